@@ -303,12 +303,103 @@ func factsSessionsAck(repo string, o *out) {
 func factsSessionsAcked(repo string, o *out) {
 	fa := parse(repo, "sessions/ackqueue.go")
 	// Acked: switch aq.ring[aq.head].State { case <release set>: …; default: break }
+	// or, equivalently: for !aq.empty() && pred(aq.ring[aq.head].State) { … } with a package-level
+	//   func pred(state message.Type) bool { switch state { case <release set>: return true }; return false }
 	acked := findFunc(fa, "Ackqueue", "Acked")
-	cs := switchCases(acked, func(sw *ast.SwitchStmt) bool {
-		return sw.Tag != nil && exprString(sw.Tag) == "aq.ring[aq.head].State"
+	hasSwitch := false
+	ast.Inspect(acked.Body, func(n ast.Node) bool {
+		if sw, ok := n.(*ast.SwitchStmt); ok && sw.Tag != nil && exprString(sw.Tag) == "aq.ring[aq.head].State" {
+			hasSwitch = true
+		}
+		return true
 	})
-	if len(cs) != 2 || len(cs[1]) != 0 {
-		die("Ackqueue.Acked: unexpected switch shape %v", cs)
+	if hasSwitch {
+		cs := switchCases(acked, func(sw *ast.SwitchStmt) bool {
+			return sw.Tag != nil && exprString(sw.Tag) == "aq.ring[aq.head].State"
+		})
+		if len(cs) != 2 || len(cs[1]) != 0 {
+			die("Ackqueue.Acked: unexpected switch shape %v", cs)
+		}
+		o.def("ackedReleaseStates", "List Nat", natList(typeList(cs[0])))
+		return
 	}
-	o.def("ackedReleaseStates", "List Nat", natList(typeList(cs[0])))
+	// the predicate form
+	var predName string
+	ast.Inspect(acked.Body, func(n ast.Node) bool {
+		f, ok := n.(*ast.ForStmt)
+		if !ok || f.Cond == nil {
+			return true
+		}
+		ast.Inspect(f.Cond, func(m ast.Node) bool {
+			if call, ok := m.(*ast.CallExpr); ok && len(call.Args) == 1 && exprString(call.Args[0]) == "aq.ring[aq.head].State" {
+				if id, ok := call.Fun.(*ast.Ident); ok {
+					predName = id.Name
+				}
+			}
+			return true
+		})
+		return true
+	})
+	if predName == "" {
+		die("switch not found in Acked")
+	}
+	var pred *ast.FuncDecl
+	for _, d := range fa.Decls {
+		if fd, ok := d.(*ast.FuncDecl); ok && fd.Recv == nil && fd.Name.Name == predName {
+			pred = fd
+		}
+	}
+	if pred == nil || pred.Type.Params == nil || len(pred.Type.Params.List) != 1 || len(pred.Type.Params.List[0].Names) != 1 {
+		die("Ackqueue.Acked: predicate %s not found or not unary", predName)
+	}
+	param := pred.Type.Params.List[0].Names[0].Name
+	// body: one switch over the parameter whose value cases all `return true`, then (or in default) `return false`
+	var states []string
+	okShape := len(pred.Body.List) >= 1
+	for i, st := range pred.Body.List {
+		switch st := st.(type) {
+		case *ast.SwitchStmt:
+			if i != 0 || st.Tag == nil || exprString(st.Tag) != param {
+				okShape = false
+				break
+			}
+			for _, c := range st.Body.List {
+				cc := c.(*ast.CaseClause)
+				isTrue := len(cc.Body) == 1
+				if isTrue {
+					r, ok := cc.Body[0].(*ast.ReturnStmt)
+					isTrue = ok && len(r.Results) == 1
+					if isTrue {
+						v := exprString(r.Results[0])
+						if cc.List == nil {
+							isTrue = v == "false"
+						} else {
+							isTrue = v == "true"
+						}
+					}
+				}
+				if !isTrue {
+					okShape = false
+				}
+				for _, e := range cc.List {
+					sel, ok := e.(*ast.SelectorExpr)
+					if !ok {
+						okShape = false
+						continue
+					}
+					states = append(states, sel.Sel.Name)
+				}
+			}
+		case *ast.ReturnStmt:
+			if i != 1 || len(st.Results) != 1 || exprString(st.Results[0]) != "false" {
+				okShape = false
+			}
+		default:
+			okShape = false
+		}
+	}
+	if !okShape || len(states) == 0 {
+		die("Ackqueue.Acked: predicate %s is not `switch %s { case …: return true }; return false`", predName, param)
+	}
+	o.def("ackedReleaseStates", "List Nat", natList(typeList(states)))
 }
